@@ -59,7 +59,9 @@ def make_case(rng, special=None):
                         ok = False
                     if special is not None and not drops:
                         # around the boundary (inside or outside the box), the boundary point itself not necessarily covered
-                        c.append(rng.choice([lo[a], lo[a] + L]) + rng.choice([-1, 1]) * rng.uniform(0.3, 0.98) * R)
+                        # (corner: mostly with the corner point itself NOT covered, i.e. three pieces)
+                        f = rng.uniform(0.72, 0.97) if (special == "corner" and rng.random() < 0.7) else rng.uniform(0.3, 0.98)
+                        c.append(rng.choice([lo[a], lo[a] + L]) + rng.choice([-1, 1]) * f * R)
                     elif rng.random() < 0.35:
                         c.append(rng.choice([lo[a], lo[a] + L]) + rng.uniform(-1, 1) * R)
                     else:
@@ -103,7 +105,7 @@ def run_cases(ck: Check, n: int):
     rng = ck.rng
     worst = {"position": 0.0, "radius": 0.0, "width": 0.0}
     for i in range(n):
-        special = {0: "corner", 1: "mixed"}.get(i % 5)
+        special = {0: "corner", 1: "mixed", 3: "corner"}.get(i % 5)
         grid, drops = make_case(rng, special)
         if not drops:
             continue
